@@ -79,7 +79,7 @@ func level2(tier string, shard, nsh int, res *ev.Result) {
 		jobs = append(jobs, job{scenarioFor(one, []string{"fc3"}, cuts, "settle"), 1})
 	}
 	// (b) pairs: every segmentation with <= 1 (thorough <= 2) cuts, settle and racing
-	small := []string{"fc3", "fc16", "fc6", "unsupported-fc", "qty-out-of-range"}
+	small := []string{"fc3", "fc16", "fc6", "unsupported-fc", "qty-out-of-range", "fc3-refused"}
 	for _, a := range small {
 		for _, b := range small {
 			names := []string{a, b}
@@ -154,6 +154,52 @@ func level2(tier string, shard, nsh int, res *ev.Result) {
 		sc.Clients[0] = ops
 		sc.Name = fmt.Sprintf("L2/pause-%dms/[fc3]/cuts[8]", ms)
 		jobs = append(jobs, job{sc, 1})
+	}
+	// (f) the same with the server's DEFAULT read timeout (5 ms): every request of up to 40 bytes cut once at every
+	// position, with 12 ms of silence between the halves - the read loop times out a few times while half a request is
+	// buffered (whatever it does on a timeout must not touch what has been received)
+	for _, f := range cat {
+		s := mkStream([]serverx.Frame{f})
+		L := len(s.bytes)
+		if L > 40 {
+			continue
+		}
+		for c1 := 1; c1 < L; c1++ {
+			if !thorough && c1 != 1 && c1 != 6 && c1 != 7 && c1 != 8 && c1 != L-1 {
+				continue
+			}
+			sc := scenarioFor(s, []string{f.Name}, []int{c1}, "settle")
+			var ops []string
+			for _, op := range sc.Clients[0] {
+				ops = append(ops, op)
+				if len(ops) == 4 {
+					ops = append(ops, "sleep:12")
+				}
+			}
+			sc.Clients[0] = ops
+			sc.ReadTimeout = "default"
+			sc.Name = fmt.Sprintf("L2/pause-12ms-default-timeout/[%s]/cuts[%d]", f.Name, c1)
+			jobs = append(jobs, job{sc, 0})
+		}
+	}
+	// (g) bursts sized by what the server has to buffer and to send: 3 and 4 requests with the largest reply / of the
+	// largest size in one write and cut inside the second request
+	for _, name := range []string{"fc3-max", "fc16-max"} {
+		for _, cnt := range []int{3, 4} {
+			var fs []serverx.Frame
+			for i := 0; i < cnt; i++ {
+				for _, f := range serverx.Catalogue(uint16(0x6000 + 0x20*i)) {
+					if f.Name == name {
+						fs = append(fs, f)
+					}
+				}
+			}
+			s := mkStream(fs)
+			short := []string{fmt.Sprintf("%dx %s", cnt, name)}
+			jobs = append(jobs, job{scenarioFor(s, short, nil, "racing"), 1})
+			jobs = append(jobs, job{scenarioFor(s, short, nil, "settle"), 0})
+			jobs = append(jobs, job{scenarioFor(s, short, []int{s.ends[0] + 5}, "racing"), 1})
+		}
 	}
 	var execs, steps, newSteps int64
 	outcomes := map[string]struct{}{}
